@@ -1,6 +1,465 @@
-//! C20 — not implemented yet.
-use mc_core::Ctx;
+//! C20 — SBOR values round-trip and have a unique encoding; the accepted payloads are exactly those of the
+//! wire format.
+//!
+//! Bounded-exhaustive enumeration, each space x 3 flavours (basic / Scrypto / manifest), against the
+//! independent reference reader / writer of `refsbor`:
+//!   (a) every value tree of the tree space (depth <= 3, width <= 2): encode == ref_encode, decode(encode(v)) == v,
+//!       decoded value spells the reference tree; plus kind-inconsistent arrays / maps (must not encode);
+//!   (b) every byte string of the byte-string space: real decoder accepts <=> reference accepts; if accepted the
+//!       decoded value spells the reference tree and re-encodes to exactly the input;
+//!   (c) every single-point mutation of every (a)-encoding of <= 40 bytes: same oracle as (b);
+//!   (e) every 2-byte size form on a string header, every first byte of a static manifest address.
+use crate::flavour::*;
+use crate::refsbor::*;
+use crate::sink::VioSink;
+use crate::spaces::*;
+use mc_core::{gen, par_range, Ctx, Level, Local};
+use sbor::DecodeError;
+use serde_json::{json, Map, Value};
+use std::collections::HashSet;
+use std::sync::atomic::{AtomicU64, Ordering};
 
-pub fn run(_ctx: Ctx) -> ! {
-    mc_core::machinery_error("C20: not implemented")
+pub fn decode_error_name(e: &DecodeError) -> &'static str {
+    match e {
+        DecodeError::ExtraTrailingBytes(_) => "ExtraTrailingBytes",
+        DecodeError::BufferUnderflow { .. } => "BufferUnderflow",
+        DecodeError::UnexpectedPayloadPrefix { .. } => "UnexpectedPayloadPrefix",
+        DecodeError::UnexpectedValueKind { .. } => "UnexpectedValueKind",
+        DecodeError::UnexpectedCustomValueKind { .. } => "UnexpectedCustomValueKind",
+        DecodeError::UnexpectedSize { .. } => "UnexpectedSize",
+        DecodeError::UnexpectedDiscriminator { .. } => "UnexpectedDiscriminator",
+        DecodeError::UnknownValueKind(_) => "UnknownValueKind",
+        DecodeError::UnknownDiscriminator(_) => "UnknownDiscriminator",
+        DecodeError::InvalidBool(_) => "InvalidBool",
+        DecodeError::InvalidUtf8 => "InvalidUtf8",
+        DecodeError::InvalidSize => "InvalidSize",
+        DecodeError::MaxDepthExceeded(_) => "MaxDepthExceeded",
+        DecodeError::DuplicateKey => "DuplicateKey",
+        DecodeError::InvalidCustomValue => "InvalidCustomValue",
+    }
+}
+
+fn rejected_class(e: RefErr) -> &'static str {
+    match e {
+        RefErr::Depth => "rejected:depth",
+        RefErr::Empty => "rejected:empty",
+        RefErr::BadPrefix => "rejected:bad-prefix",
+        RefErr::UnknownKind => "rejected:unknown-kind",
+        RefErr::Underflow => "rejected:underflow",
+        RefErr::SizeNonCanonical => "rejected:size-non-canonical",
+        RefErr::SizeTooLong => "rejected:size-too-long",
+        RefErr::BadBool => "rejected:bad-bool",
+        RefErr::BadUtf8 => "rejected:bad-utf8",
+        RefErr::BadCustom => "rejected:bad-custom",
+        RefErr::TrailingBytes => "rejected:trailing-bytes",
+    }
+}
+
+fn fl_tag(fl: Fl) -> u64 {
+    match fl {
+        Fl::Basic => 0,
+        Fl::Scrypto => 1,
+        Fl::Manifest => 2,
+    }
+}
+
+fn case_json(fl: Fl, space: &str, bytes: &[u8]) -> Value {
+    json!({"flavour": fl.name(), "space": space, "bytes": mc_core::hex(bytes)})
+}
+
+struct Shared {
+    sink: VioSink,
+    accepted_b: AtomicU64,
+    accepted_c: AtomicU64,
+    mutations: AtomicU64,
+}
+
+/// (b)/(c)/(e): one payload against the real decoder + encoder and the reference reader. Returns true if accepted by both.
+fn check_payload<F: Flv>(bytes: &[u8], space: &'static str, l: &mut Local, sh: &Shared, verbose: bool) -> bool {
+    l.eval();
+    let limit = F::DEFAULT_DEPTH;
+    let fl = F::FL;
+    let rp = ref_parse(bytes, fl, limit);
+    let real = mc_core::catch(|| F::decode(bytes, limit));
+    if verbose {
+        println!("  reference: {:?}", rp.as_ref().map(|t| format!("{t:?}")));
+        println!("  real decoder: {:?}", real.as_ref().map(|r| r.as_ref().map(|v| format!("{v:?}"))));
+    }
+    let rec = |key: &str, what: String| sh.sink.record(key, bytes, fl_tag(fl), || (what, case_json(fl, space, bytes)));
+    match (real, rp) {
+        (Err(p), Ok(_)) => {
+            rec("decode-panics-on-wire-format-payload", format!("{} decoder panicked ({p}) on a payload the wire format accepts: {}", fl.name(), mc_core::hex(bytes)));
+            false
+        }
+        (Err(_), Err(e)) => {
+            l.info("decoder panicked on a payload outside the wire format (C21's clause, not C20's)");
+            l.class(rejected_class(e));
+            false
+        }
+        (Ok(Ok(v)), Ok(t)) => {
+            l.class("accepted");
+            if !F::matches_ref(&v, &t) {
+                rec("decoded-value-differs-from-wire-format", format!("{} payload {} decodes to {v:?}, the wire format says {t:?}", fl.name(), mc_core::hex(bytes)));
+            }
+            match mc_core::catch(|| F::encode(&v, limit)) {
+                Ok(Ok(e)) => {
+                    if verbose {
+                        println!("  re-encoded: {}", mc_core::hex(&e));
+                    }
+                    if e != bytes {
+                        rec("reencoding-differs", format!("{} payload {} is accepted but re-encodes to {} (two encodings of one value)", fl.name(), mc_core::hex(bytes), mc_core::hex(&e)));
+                    }
+                }
+                Ok(Err(e)) => rec("accepted-payload-not-reencodable", format!("{} payload {} is accepted but its value does not encode: {e:?}", fl.name(), mc_core::hex(bytes))),
+                Err(p) => rec("reencode-panics", format!("{} payload {} is accepted but encoding its value panics: {p}", fl.name(), mc_core::hex(bytes))),
+            }
+            l.sample(|| json!({"space": space, "flavour": fl.name(), "bytes": mc_core::hex(bytes), "outcome": "accepted, re-encodes identically"}));
+            true
+        }
+        (Ok(Ok(v)), Err(e)) => {
+            rec(
+                &format!("accepts-outside-wire-format:{}", e.label()),
+                format!("{} decoder accepts {} as {v:?}; the wire format rejects it ({})", fl.name(), mc_core::hex(bytes), e.label()),
+            );
+            false
+        }
+        (Ok(Err(de)), Ok(t)) => {
+            rec(
+                &format!("rejects-wire-format-payload:{}", decode_error_name(&de)),
+                format!("{} decoder rejects {} with {de:?}; the wire format reads it as {t:?}", fl.name(), mc_core::hex(bytes)),
+            );
+            false
+        }
+        (Ok(Err(_)), Err(e)) => {
+            l.class(rejected_class(e));
+            false
+        }
+    }
+}
+
+/// (a): one value tree.
+fn check_tree<F: Flv>(r: &RefTree, l: &mut Local, sh: &Shared, verbose: bool) -> Vec<u8> {
+    l.eval();
+    let fl = F::FL;
+    let limit = F::DEFAULT_DEPTH;
+    let refenc = ref_encode(r, fl);
+    // self-check of the reference: its reader inverts its writer
+    match ref_parse(&refenc, fl, limit) {
+        Ok(t) if t == *r => {}
+        other => mc_core::machinery_error(&format!("reference reader/writer disagree on {r:?}: {} -> {other:?}", mc_core::hex(&refenc))),
+    }
+    let v = F::from_ref(r);
+    let rec = |key: &str, what: String| sh.sink.record(key, &refenc, fl_tag(fl), || (what, case_json(fl, "a", &refenc)));
+    match mc_core::catch(|| F::encode(&v, limit)) {
+        Err(p) => rec("encode-panics", format!("{} encoder panics ({p}) on {v:?}", fl.name())),
+        Ok(Err(e)) => rec("encoder-rejects-valid-value", format!("{} encoder rejects {v:?} with {e:?}", fl.name())),
+        Ok(Ok(e)) => {
+            if verbose {
+                println!("  value {v:?}\n  encoder:   {}\n  reference: {}", mc_core::hex(&e), mc_core::hex(&refenc));
+            }
+            if e != refenc {
+                rec("encoding-differs-from-wire-format", format!("{} value {v:?} encodes to {}, the wire format says {}", fl.name(), mc_core::hex(&e), mc_core::hex(&refenc)));
+            }
+            match mc_core::catch(|| F::decode(&e, limit)) {
+                Err(p) => rec("decode-panics-on-own-encoding", format!("{} decoder panics ({p}) on the encoding {} of {v:?}", fl.name(), mc_core::hex(&e))),
+                Ok(Err(de)) => rec("decoder-rejects-own-encoding", format!("{} decoder rejects the encoding {} of {v:?} with {de:?}", fl.name(), mc_core::hex(&e))),
+                Ok(Ok(d)) => {
+                    if d != v {
+                        rec("roundtrip-value-differs", format!("{} value {v:?} encodes to {} which decodes to {d:?}", fl.name(), mc_core::hex(&e)));
+                    } else if !F::matches_ref(&d, r) {
+                        rec("decoded-value-differs-from-wire-format", format!("{} payload {} decodes to {d:?}, the wire format says {r:?}", fl.name(), mc_core::hex(&e)));
+                    } else {
+                        l.class(match r.depth() {
+                            1 => "tree:roundtrip-ok:depth1",
+                            2 => "tree:roundtrip-ok:depth2",
+                            _ => "tree:roundtrip-ok:depth3",
+                        });
+                    }
+                }
+            }
+        }
+    }
+    l.sample(|| json!({"space": "a", "flavour": fl.name(), "tree": mc_core::truncate(&format!("{r:?}"), 160), "encoding": mc_core::hex(&refenc[..refenc.len().min(48)])}));
+    refenc
+}
+
+/// Arrays / maps whose elements do not have the declared kind: not expressible on the wire, so the encoder
+/// must refuse them (if it encoded them, the payload could not decode back to an equal value).
+fn kind_inconsistent_trees(fl: Fl) -> Vec<RefTree> {
+    let firsts = ladder_leaves(fl);
+    let mut out = vec![];
+    for a in &firsts {
+        for b in &firsts {
+            if a.kind() == b.kind() {
+                continue;
+            }
+            out.push(RefTree::Array(a.kind(), vec![b.clone()]));
+            out.push(RefTree::Array(a.kind(), vec![a.clone(), b.clone()]));
+            out.push(RefTree::Map(a.kind(), a.kind(), vec![(b.clone(), a.clone())]));
+            out.push(RefTree::Map(a.kind(), a.kind(), vec![(a.clone(), b.clone())]));
+            out.push(RefTree::Tuple(vec![RefTree::Array(a.kind(), vec![a.clone(), b.clone()])]));
+        }
+    }
+    out
+}
+
+fn check_inconsistent<F: Flv>(r: &RefTree, l: &mut Local, sh: &Shared) {
+    l.eval();
+    let fl = F::FL;
+    let v = F::from_ref(r);
+    match mc_core::catch(|| F::encode(&v, F::DEFAULT_DEPTH)) {
+        Err(_) => l.info("encoder panicked on a kind-inconsistent in-memory value (outside the statement)"),
+        Ok(Err(_)) => l.class("tree:encoder-refuses-kind-mismatch"),
+        Ok(Ok(e)) => {
+            let back = mc_core::catch(|| F::decode(&e, F::DEFAULT_DEPTH));
+            if !matches!(&back, Ok(Ok(d)) if *d == v) {
+                sh.sink.record("encodes-value-that-does-not-round-trip", &e, fl_tag(fl), || {
+                    (
+                        format!("{} encoder accepts the kind-inconsistent value {v:?} -> {}; decoding gives {back:?}", fl.name(), mc_core::hex(&e)),
+                        json!({"flavour": fl.name(), "space": "a-inconsistent", "bytes": mc_core::hex(&e), "tree": format!("{r:?}")}),
+                    )
+                });
+            } else {
+                l.class("tree:kind-mismatch-encoded-and-round-tripped");
+            }
+        }
+    }
+}
+
+struct FlavourCounts {
+    trees: u64,
+    distinct_encodings: u64,
+    inconsistent: u64,
+    strings: u64,
+    mutation_bases: u64,
+}
+
+fn run_flavour<F: Flv>(ctx: &Ctx, sh: &Shared, cov: &mut Map<String, Value>) -> FlavourCounts {
+    let fl = F::FL;
+    let wide = !ctx.quick();
+    let t0 = ctx.elapsed_s();
+    let space = tree_space(fl, wide);
+    let n = space.len() as u64;
+
+    // harness anchors: the arithmetic bridge for decimals means what the library constants mean
+    if fl == Fl::Scrypto {
+        use radix_common::math::{Decimal, PreciseDecimal};
+        let mut one = [0u8; 24];
+        one[..16].copy_from_slice(&1_000_000_000_000_000_000u128.to_le_bytes());
+        if Decimal::from_attos(i192_from_le(&one)) != Decimal::ONE || Decimal::from_attos(i192_from_le(&[0xff; 24])) != Decimal::ZERO - Decimal::from_attos(1u8.into()) {
+            mc_core::machinery_error("harness decimal bridge does not agree with Decimal::ONE / -1 atto");
+        }
+        let mut mn = [0u8; 24];
+        mn[23] = 0x80;
+        let mut mx = [0xffu8; 24];
+        mx[23] = 0x7f;
+        if Decimal::from_attos(i192_from_le(&mn)) != Decimal::MIN || Decimal::from_attos(i192_from_le(&mx)) != Decimal::MAX {
+            mc_core::machinery_error("harness decimal bridge does not agree with Decimal::MIN / MAX");
+        }
+        let mut pmn = [0u8; 32];
+        pmn[31] = 0x80;
+        if PreciseDecimal::from_precise_subunits(i256_from_le(&pmn)) != PreciseDecimal::MIN {
+            mc_core::machinery_error("harness decimal bridge does not agree with PreciseDecimal::MIN");
+        }
+    }
+
+    // ---- (a) trees + (c) mutations of their encodings
+    let alphabet: &[u8] = if ctx.quick() { &MUT_ALPHABET_QUICK } else { &gen::ALL_BYTES };
+    let bases = AtomicU64::new(0);
+    par_range(ctx, n, 64, |i, l| {
+        let r = space.get(i as usize);
+        let enc = check_tree::<F>(r, l, sh, false);
+        if enc.len() <= 40 {
+            bases.fetch_add(1, Ordering::Relaxed);
+            let mut muts = 0u64;
+            let mut acc = 0u64;
+            gen::mutations(&enc, alphabet, |m| {
+                muts += 1;
+                if check_payload::<F>(m, "c", l, sh, false) {
+                    acc += 1;
+                }
+            });
+            sh.mutations.fetch_add(muts, Ordering::Relaxed);
+            sh.accepted_c.fetch_add(acc, Ordering::Relaxed);
+        } else {
+            l.info("encoding longer than 40 bytes: covered by (a) only");
+        }
+    });
+    // distinctness of the tree space, measured by encoding
+    let mut seen: HashSet<Vec<u8>> = HashSet::with_capacity(space.len());
+    for i in 0..space.len() {
+        seen.insert(mc_core::fp128(&ref_encode(space.get(i), fl)));
+    }
+    let distinct = seen.len() as u64;
+    drop(seen);
+    let t_a = ctx.elapsed_s();
+
+    // ---- (a') kind-inconsistent containers
+    let bad = kind_inconsistent_trees(fl);
+    par_range(ctx, bad.len() as u64, 16, |i, l| check_inconsistent::<F>(&bad[i as usize], l, sh));
+
+    // ---- (b) byte strings
+    let lb = ctx.pick(6u32, 7u32);
+    let n_full = gen::count_upto(16, 3);
+    let n_body = gen::count_upto(16, lb);
+    par_range(ctx, n_full, 256, |i, l| {
+        let mut buf = Vec::with_capacity(8);
+        gen::nth_string(&ALPHABET_FULL, i, &mut buf);
+        if check_payload::<F>(&buf, "b", l, sh, false) {
+            sh.accepted_b.fetch_add(1, Ordering::Relaxed);
+        }
+    });
+    par_range(ctx, n_body, 4096, |i, l| {
+        let mut body = Vec::with_capacity(8);
+        gen::nth_string(&ALPHABET_BODY, i, &mut body);
+        let mut buf = Vec::with_capacity(9);
+        buf.push(fl.prefix());
+        buf.extend_from_slice(&body);
+        if check_payload::<F>(&buf, "b", l, sh, false) {
+            sh.accepted_b.fetch_add(1, Ordering::Relaxed);
+        }
+    });
+    let t_b = ctx.elapsed_s();
+
+    // ---- (e) every 2-byte size form on a string header (with the data the form promises, and one byte less)
+    let mut extra = 0u64;
+    par_range(ctx, 65536, 256, |i, l| {
+        let (b1, b2) = ((i >> 8) as u8, i as u8);
+        let lenient = ((b1 & 0x7f) as usize) | (((b2 & 0x7f) as usize) << 7);
+        for data in [lenient, lenient.saturating_sub(1), (b1 & 0x7f) as usize] {
+            let mut buf = vec![fl.prefix(), K_STRING, b1, b2];
+            buf.resize(4 + data, b'x');
+            check_payload::<F>(&buf, "e-size-forms", l, sh, false);
+        }
+    });
+    extra += 65536 * 3;
+    if fl == Fl::Manifest {
+        par_range(ctx, 256, 8, |i, l| {
+            for fill in [0x00u8, 0xff] {
+                let mut buf = vec![fl.prefix(), 0x80, 0x00, i as u8];
+                buf.resize(4 + 29, fill);
+                check_payload::<F>(&buf, "e-address-entity-byte", l, sh, false);
+            }
+        });
+        extra += 512;
+    }
+
+    cov.insert(
+        format!("space_{}", fl.name()),
+        json!({
+            "trees_S1": space.s1.len(), "trees_S2": space.s2.len(), "trees_S3": space.s3.len(),
+            "core_leaves": space.core1, "core_depth2": space.core2,
+            "distinct_tree_encodings": distinct,
+            "kind_inconsistent_trees": bad.len(),
+            "mutation_bases(<=40 bytes)": bases.load(Ordering::Relaxed),
+            "byte_strings": n_full + n_body,
+            "extra_payloads(size forms, address entity bytes)": extra,
+            "seconds(a+c, b, e)": [t_a - t0, t_b - t_a, ctx.elapsed_s() - t_b],
+        }),
+    );
+    FlavourCounts { trees: n, distinct_encodings: distinct, inconsistent: bad.len() as u64, strings: n_full + n_body, mutation_bases: bases.load(Ordering::Relaxed) }
+}
+
+/// Informational: in-memory custom values that the constructors refuse but the public enum fields allow.
+/// They are not "SBOR values" in the sense of the statement (no payload denotes them); recorded so the
+/// reader knows the encoder does not validate them.
+fn informational_invalid_in_memory(ctx: &Ctx) {
+    use radix_common::data::manifest::model::*;
+    use radix_common::data::manifest::*;
+    use radix_common::types::NodeId;
+    let cases: Vec<(&str, ManifestValue)> = vec![
+        ("manifest local id String(\"\") built through the public variant", ManifestValue::Custom { value: ManifestCustomValue::NonFungibleLocalId(ManifestNonFungibleLocalId::String(String::new())) }),
+        ("manifest static address with a non-entity first byte", ManifestValue::Custom { value: ManifestCustomValue::Address(ManifestAddress::Static(NodeId([0xff; 30]))) }),
+    ];
+    for (name, v) in cases {
+        let enc = mc_core::catch(|| Manifest::encode(&v, 24));
+        if let Ok(Ok(e)) = enc {
+            if !matches!(mc_core::catch(|| Manifest::decode(&e, 24)), Ok(Ok(d)) if d == v) {
+                ctx.info(&format!("encodable but not decodable (invalid in-memory custom value, outside the statement's domain): {name}"), 1);
+            }
+        }
+    }
+}
+
+pub fn run(ctx: Ctx) -> ! {
+    if let Some(case) = ctx.read_replay_case() {
+        replay(ctx, case);
+    }
+    let sh = Shared { sink: VioSink::new(), accepted_b: AtomicU64::new(0), accepted_c: AtomicU64::new(0), mutations: AtomicU64::new(0) };
+    let mut cov = Map::new();
+    let c0 = run_flavour::<Basic>(&ctx, &sh, &mut cov);
+    let c1 = run_flavour::<Scrypto>(&ctx, &sh, &mut cov);
+    let c2 = run_flavour::<Manifest>(&ctx, &sh, &mut cov);
+    informational_invalid_in_memory(&ctx);
+
+    let trees = c0.trees + c1.trees + c2.trees;
+    let distinct = c0.distinct_encodings + c1.distinct_encodings + c2.distinct_encodings;
+    if distinct != trees {
+        ctx.note(format!("tree space contains duplicates: {trees} trees, {distinct} distinct encodings"));
+    }
+    let accepted_b = sh.accepted_b.load(Ordering::Relaxed);
+    cov.insert("value_trees".into(), json!(trees));
+    cov.insert("kind_inconsistent_trees".into(), json!(c0.inconsistent + c1.inconsistent + c2.inconsistent));
+    cov.insert("byte_strings".into(), json!(c0.strings + c1.strings + c2.strings));
+    cov.insert("byte_strings_accepted".into(), json!(accepted_b));
+    cov.insert("mutation_bases".into(), json!(c0.mutation_bases + c1.mutation_bases + c2.mutation_bases));
+    cov.insert("mutations".into(), json!(sh.mutations.load(Ordering::Relaxed)));
+    cov.insert("mutations_accepted".into(), json!(sh.accepted_c.load(Ordering::Relaxed)));
+    cov.insert("tree_space".into(), json!(TreeSpace::describe(!ctx.quick())));
+    let quick = ctx.quick();
+    sh.sink.flush(&ctx);
+    let rule = format!(
+        "x3 flavours. (a) every value tree of the tree space (see coverage.tree_space); (b) every byte string of length <= 3 over the 16-symbol alphabet \
+         {{5B 5C 4D 00 01 02 07 0C 20 21 22 23 80 C0 FF 83}} and the flavour prefix followed by every string of length <= {} over \
+         {{00 01 02 03 07 0C 20 21 22 23 41 80 83 87 C0 FF}}; (c) every single-point mutation (substitute each position with each of {} values, delete, duplicate, \
+         truncate at each length, append each value) of every (a)-encoding of <= 40 bytes; (e) every 2-byte size form on a string header, every first byte of a static manifest address. \
+         A case is one tree or one payload. non-trivial = distinct value trees (by encoding) + distinct (b) strings accepted by decoder and reference",
+        if quick { 6 } else { 7 },
+        if quick { "the 12 structurally significant" } else { "all 256" }
+    );
+    ctx.finish(
+        Level::Exploration,
+        &rule,
+        distinct + accepted_b,
+        true,
+        cov,
+        &[
+            "std::str::from_utf8 decides UTF-8 validity for the reference (platform, not code under test)",
+            "payloads are decoded at the flavour's default depth limit (64 / 64 / 24); nothing enumerated here is deeper than 4 (depth behaviour is C21's)",
+            "in-memory custom values that no payload denotes (built through public enum fields, bypassing the constructors) are outside the statement's domain; reported as informational",
+            "payloads longer than 40 bytes are covered through (a) and the size-form sweep only",
+        ],
+    )
+}
+
+fn replay(ctx: Ctx, case: Value) -> ! {
+    let fl = case.get("flavour").and_then(|x| x.as_str()).and_then(Fl::from_name).unwrap_or_else(|| mc_core::machinery_error("replay: no flavour"));
+    let space = case.get("space").and_then(|x| x.as_str()).unwrap_or("b").to_string();
+    let bytes = mc_core::unhex(case.get("bytes").and_then(|x| x.as_str()).unwrap_or(""));
+    println!("replay C20: flavour={} space={} bytes={}", fl.name(), space, mc_core::hex(&bytes));
+    let sh = Shared { sink: VioSink::new(), accepted_b: AtomicU64::new(0), accepted_c: AtomicU64::new(0), mutations: AtomicU64::new(0) };
+    let mut l = Local::new();
+    fn one<F: Flv>(space: &str, bytes: &[u8], l: &mut Local, sh: &Shared) {
+        if space == "a" {
+            match ref_parse(bytes, F::FL, F::DEFAULT_DEPTH) {
+                Ok(t) => {
+                    check_tree::<F>(&t, l, sh, true);
+                }
+                Err(e) => mc_core::machinery_error(&format!("replay: reference cannot read the tree payload: {e:?}")),
+            }
+        } else {
+            check_payload::<F>(bytes, "replay", l, sh, true);
+        }
+    }
+    match fl {
+        Fl::Basic => one::<Basic>(&space, &bytes, &mut l, &sh),
+        Fl::Scrypto => one::<Scrypto>(&space, &bytes, &mut l, &sh),
+        Fl::Manifest => one::<Manifest>(&space, &bytes, &mut l, &sh),
+    }
+    ctx.merge(l);
+    if sh.sink.is_empty() {
+        println!("replay: no violation on this input");
+    }
+    sh.sink.flush(&ctx);
+    ctx.finish(Level::Exploration, "replay of one case", 1, false, Map::new(), &[])
 }
